@@ -1384,6 +1384,19 @@ class DomainMapping(CanBehaveLikeAVariable[T], ABC):
         self._node_.color = value
 
 
+def _label_of_(value: Any) -> str:
+    """
+    :param value: A value written into a query.
+    :return: A label for it that is made without calling anything on user data: only plain builtin values are
+     rendered, everything else is named by its type.
+    """
+    if isinstance(value, SymbolicExpression):
+        return value._name_
+    if value is None or type(value) in (bool, int, float, complex, str, bytes):
+        return str(value)
+    return type(value).__name__
+
+
 def _value_of_argument_(
     argument: Any, bindings: Optional[Dict[int, HashedValue]]
 ) -> Any:
@@ -1528,7 +1541,7 @@ class Index(DomainMapping):
 
     @property
     def _name_(self):
-        return f"{self._child_._var_._name_}[{self._key_}]"
+        return f"{self._child_._var_._name_}[{_label_of_(self._key_)}]"
 
 
 @dataclass(eq=False, repr=False)
